@@ -21,7 +21,7 @@ var c18Stateful = lexer.MustSimple([]lexer.SimpleRule{
 	{Name: "String", Pattern: `"(\\.|[^"\\])*"`},
 	{Name: "RawString", Pattern: "`[^`]*`"},
 	{Name: "Char", Pattern: `'(\\.|[^'\\])*'`},
-	{Name: "Ident", Pattern: `[a-zA-Z_é]+`},
+	{Name: "Ident", Pattern: `[\pL_]+`},
 	{Name: "Int", Pattern: `[0-9]+`},
 	{Name: "Punct", Pattern: `[-+;(),]`},
 	{Name: "WS", Pattern: `\s+`},
@@ -366,7 +366,9 @@ func genLiteral(t *rapid.T) (string, bool) {
 		q := rapid.SampledFrom([]string{`"`, `'`}).Draw(t, "q")
 		return q + "a" + e + q, true
 	default:
-		return rapid.SampledFrom([]string{"abc", "é", "x", "42", "0", "Foo", "_y"}).Draw(t, "word"), false
+		// words (incl. letters whose upper case differs from their title case, and scripts with their own upper case),
+		// numbers and punctuation (tokens without a symbol name under the text/scanner lexer)
+		return rapid.SampledFrom([]string{"abc", "é", "x", "42", "0", "Foo", "_y", "ǆx", "ǳa", "ǅ", "ნი", "ſt", ";", "(", ",", "+", "-"}).Draw(t, "word"), false
 	}
 }
 
@@ -405,6 +407,9 @@ func TestC18(t *testing.T) {
 			c.Mappers = append(c.Mappers, c18Mapper{Kind: "unquote", Types: ts})
 		case 3:
 			c.Mappers = append(c.Mappers, c18Mapper{Kind: "upper", Types: []string{"Ident"}})
+			if rapid.IntRange(0, 3).Draw(t, "upperall") == 0 {
+				c.Mappers[len(c.Mappers)-1].Types = nil // no selection: every token
+			}
 		case 4:
 			c.Mappers = append(c.Mappers, c18Mapper{Kind: "upper", Types: []string{"Ident"}}, c18Mapper{Kind: "unquote", Types: lits})
 		default:
